@@ -21,6 +21,12 @@ struct verif_ghost {
     int executed;
     int artifact_written;
     int sigpipe_ignored;
+    /* verifier walk bookkeeping (C13.verify) */
+    int hit;               /* the linear walk visited ghost offset __verif_gpos */
+    uint32_t walk_end;     /* offset at which the walk stands */
+    int fnv;               /* verify_function entered for ghost function __verif_gf */
+    /* crc loop coverage (C12.crc.cover) */
+    uint32_t seen, last;
     /* release bookkeeping (C14) */
     unsigned release_calls;
 };
@@ -43,6 +49,19 @@ void    *nondet_ptr(void);
  * property whose description starts with "COVER" as discharged iff CBMC
  * reports FAILURE for it (the point is reachable with the condition true);
  * SUCCESS there means a vacuous harness and makes the run undecided. */
+#ifdef VERIF_WITNESS
+#define VERIF_COVER(c) ((void)0)
+#else
 #define VERIF_COVER(c) __CPROVER_assert(!(c), "COVER " #c)
+#endif
+
+/* Pointer precondition of an enforced contract: fresh exact-sized object in the
+ * proof; in witness mode (counterexample search after a refutation) the harness
+ * has allocated the object itself from named in_* globals. */
+#ifdef VERIF_WITNESS
+#define VERIF_FRESH(p, n) __CPROVER_r_ok(p, n)
+#else
+#define VERIF_FRESH(p, n) __CPROVER_is_fresh(p, n)
+#endif
 
 #endif
